@@ -781,6 +781,26 @@ pub fn generate(p: &mut Prng, cfg: &GenCfg) -> Project {
         cur.fns = fns;
         proj.pkgs[pi] = cur;
     }
+    // sometimes: one more library that consists of declarations only (a struct and an enum, no
+    // function, no impl), used by Main — such a package contributes types but no code
+    if npk < PKG_NAMES.len() && p.chance(1, 6) {
+        let di = proj.pkgs.len();
+        let tag = PKG_NAMES[di].to_lowercase();
+        proj.pkgs.push(Pkg {
+            name: PKG_NAMES[di].to_string(),
+            nfiles: 1,
+            structs: vec![StructDef { name: format!("D{}s", &tag[1..]), fields: vec!["x".into(), "y".into()], derive_tostring: false }],
+            enums: vec![EnumDef { name: format!("D{}e", &tag[1..]), variants: vec![("DA".into(), 0), ("DB".into(), 1)] }],
+            ..Default::default()
+        });
+        proj.pkgs[0].imports.push(di);
+        let k = p.range(1, 9) as i32;
+        proj.main_prints.push(Expr::Add(
+            Box::new(Expr::Field(Box::new(Expr::MkStruct(di, 0, vec![Expr::Lit(k), Expr::Lit(2)])), "x".into(), (di, 0))),
+            Box::new(Expr::Match(Box::new(Expr::MkEnum(di, 0, 1, vec![Expr::Lit(k + 1)])), (di, 0), vec![Expr::Lit(0), Expr::Var("v9_0".into())], 9)),
+        ));
+        proj.main_print_tys.push(Ty::Int);
+    }
     // main prints
     let nprints = 1 + p.usize(4);
     for _ in 0..nprints {
